@@ -73,7 +73,7 @@ Section Exact.
     - apply Z.leb_gt in E.
       assert (H1 : n * 2 ^ s * 2 ^ (- e) < 2 ^ 53 * d * 2 ^ t * 2 ^ (- e)).
       { rewrite Hrep. pose proof (pow2_pos t Ht). pose proof (pow2_pos (- e) ltac:(lia)). nia. }
-      assert (H2 : 2 ^ 53 * 2 ^ t * 2 ^ (- e) <= 2 ^ 52 * 2 ^ s).
+      assert (H2 : 2 ^ 53 * (2 ^ t * 2 ^ (- e)) <= 2 ^ 52 * 2 ^ s).
       { rewrite <- (pow2_split t (- e)) by lia.
         replace s with ((t + - e + 1) + (s - t + e - 1)) at 1 by lia.
         rewrite (pow2_split (t + - e + 1)) by lia. rewrite (pow2_split (t + - e) 1) by lia.
@@ -93,8 +93,11 @@ Section Exact.
       rewrite !pow2_split by lia.
       pose proof (pow2_pos s Hs). pose proof (pow2_pos t Ht).
       assert (n * 2 ^ s < 2 ^ 53 * 2 ^ Z.succ (Z.log2 d) * 2 ^ t).
-      { rewrite Hrep. nia. }
-      nia. }
+      { rewrite Hrep.
+        assert (k * d < 2 ^ 53 * 2 ^ Z.succ (Z.log2 d)) by (apply Z.mul_lt_mono_nonneg; lia).
+        apply Z.mul_lt_mono_pos_r; assumption. }
+      assert (2 ^ Z.log2 n * 2 ^ s <= n * 2 ^ s) by (apply Z.mul_le_mono_nonneg_r; lia).
+      lia. }
     apply Z.pow_lt_mono_r_iff in H1; lia.
   Qed.
 
